@@ -418,6 +418,12 @@ class SciPyOptimizer(Optimizer):
 
         if compute_functions or compute_gradients:
             self._cached_variables = variables.copy()
+            # A gradient evaluation needs the function values at this point.
+            # If these are not available yet, request them explicitly, so
+            # that they are cached, counted and, if needed, evaluated
+            # separately:
+            if compute_gradients and self._cached_function is None:
+                compute_functions = True
             # Speculative evaluation of gradients is pointless for methods
             # that do not use them:
             speculative = (
